@@ -528,6 +528,11 @@ def run_sequence(worker, seq, log=None):
                     raw = f.read()
                 for n, (off, ln) in zip(parts, layout):
                     try:
+                        # a directory moved within an image: always look (its '..' entry must name the new parent)
+                        moved_dir = c.get('op') == 'mv' and c['dest'][0] == n and any(
+                            s_[0] == n and isinstance(lookup(prev[n], tuple(s_[1])), dict) for s_ in c['srcs'])
+                        verdict = hook(raw[off:off + ln], force=True) if moved_dir else hook(raw[off:off + ln])
+                    except TypeError:
                         verdict = hook(raw[off:off + ln])
                     except Exception as exc:
                         verdict = None
@@ -799,6 +804,27 @@ def roundtrip_sequence(rng, size):
         {'op': 'rm', 'r': True, 'f': False, 'paths': [[1, ['d1'], a]]},
         {'op': 'rmdir', 'paths': [[2, ['copy', 'sub'], 'n']]},
         {'op': 'rmdir', 'paths': [[2, ['copy'], 'n']]},
+    ]
+    return Seq(vols, cmds)
+
+
+def dirmove_sequence(rng, ft):
+    """directories moved around inside one partition (into / out of the root, between sub-directories, across
+    partitions): the structural check runs after every such move (the '..' entry must name the new parent, 0 for a root)"""
+    vols = [[ft, 300, 1], [rng.choice(['fat12', 'fat16', 'fat32']), 150, 1]]
+    a = rng.choice(['n', 'a'])
+    cmds = [
+        {'op': 'put', 'path': ['h', ['f.bin']], 'size': 700, 'seed': rng.randrange(1 << 30)},
+        {'op': 'mkdir', 'parents': True, 'paths': [[1, ['B', 'SUB', 'DEEP'], a]]},
+        {'op': 'cp', 'r': False, 'srcs': [['h', ['f.bin'], 'n']], 'dest': [1, ['B', 'SUB', 'f.bin'], a]},
+        {'op': 'mv', 'srcs': [[1, ['B', 'SUB'], a]], 'dest': [1, [], a]},                     # sub-directory -> root
+        {'op': 'mv', 'srcs': [[1, ['SUB', 'DEEP'], 'n']], 'dest': [1, ['TOP'], 'n']},            # ... under a new name
+        {'op': 'mv', 'srcs': [[1, ['TOP'], 'n']], 'dest': [1, ['B', 'down again'], 'n']},        # root -> sub-directory
+        {'op': 'mv', 'srcs': [[1, ['B', 'down again'], 'n']], 'dest': [1, ['SUB'], 'n']},        # sub-directory -> sub-directory
+        {'op': 'mv', 'srcs': [[1, ['SUB'], 'n']], 'dest': [2, ['over there'], 'n']},             # across partitions
+        {'op': 'mv', 'srcs': [[2, ['over there', 'down again'], 'n']], 'dest': [2, [], 'n']},
+        {'op': 'cp', 'r': False, 'srcs': [[2, ['over there', 'f.bin'], 'n']], 'dest': ['h', ['back.bin'], 'n']},
+        {'op': 'rm', 'r': True, 'f': False, 'paths': [[2, ['over there'], 'n'], [2, ['down again'], 'n'], [1, ['B'], a]]},
     ]
     return Seq(vols, cmds)
 
